@@ -92,11 +92,6 @@ func shortFrame(r *gen.RNG, max int) wireFrame {
 	}
 }
 
-type schedule struct {
-	steps []mon.Step
-	name  string
-}
-
 // c07Run reads frame under one schedule and compares with the isolated result.
 func c07Run(c *run.Ctx, f wireFrame, iso isolated, steps []mon.Step, name string, split bool) {
 	rd := &mon.ScriptedReader{Data: f.Bytes, Steps: cloneSteps(steps)}
